@@ -1,4 +1,5 @@
 import QscProofs.C13
+import Mathlib.Data.List.Rotate
 /-!
 # C13Cyc – the quadrant counter under a change of toroidal origin and of field-period representation
 
@@ -101,6 +102,31 @@ theorem helicity_nfp_invariant (q : List Int) (k : Nat) (s : Int) :
   have h2 : 4 * s * (ups q - downs q) = 4 * (s * (ups q - downs q)) := by ring
   rw [h1, h2, Int.mul_ediv_cancel_left _ (by norm_num), Int.mul_ediv_cancel_left _ (by norm_num)]
   ring
+
+/-! ### stated on the normal vector samples `(n_R, n_Z)` the code reads -/
+
+/-- the quadrant list of the code for the samples `n` of `(n_R, n_Z)` (`>= 0` tests) -/
+noncomputable def quadrants (n : List (ℝ × ℝ)) : List Int :=
+  n.map (fun p => quadrant (decide (p.1 ≥ 0)) (decide (p.2 ≥ 0)))
+
+theorem map_rep {α : Type} (g : α → Int) (k : Nat) (n : List α) :
+    ((List.replicate k n).flatten).map g = rep k (n.map g) := by
+  induction k with
+  | zero => simp [rep]
+  | succ k ih => rw [List.replicate_succ, List.flatten_cons, List.map_append, ih, rep_succ]
+
+/-- **C05**: moving the origin of the grid by `m` points (samples cyclically shifted) leaves the counter unchanged -/
+theorem helicity_shift (n : List (ℝ × ℝ)) (m : Nat) (s : Int) :
+    counter (quadrants (n.rotate m)) s = counter (quadrants n) s := by
+  unfold quadrants
+  rw [List.map_rotate, counter_rotate]
+
+/-- **C06**: the samples over one turn of an `nfp = 1` declaration are the `k`-fold repetition of those of one field
+period; the counter is multiplied by `k` -/
+theorem helicity_repetition (n : List (ℝ × ℝ)) (k : Nat) (s : Int) :
+    counter (quadrants ((List.replicate k n).flatten)) s = k * counter (quadrants n) s := by
+  unfold quadrants
+  rw [map_rep, counter_rep]
 
 /-- non-vacuity: one turn started at its third point, and three turns as a repetition -/
 example : counter ([1, 2, 3, 4].rotate 2) 1 = 4 := by decide
